@@ -48,6 +48,16 @@ Theorem C04_reject_noop : forall s o s' out, step s o = (s', out) -> out <> Acce
 Proof. exact reject_noop. Qed.
 Print Assumptions C04_reject_noop.
 
+(* a node starts on an empty database (appends its configured genesis block) only
+   if the configured genesis signature verifies; otherwise nothing is stored *)
+Theorem C04_start_needs_signature : forall g s, start_node g = Some s -> b_sig_ok g = true /\ s = init_state g.
+Proof. exact start_needs_signature. Qed.
+Print Assumptions C04_start_needs_signature.
+
+Theorem C04_start_refused : forall g, b_sig_ok g = false -> start_node g = None.
+Proof. exact start_refused. Qed.
+Print Assumptions C04_start_refused.
+
 (* a second genesis is refused *)
 Theorem C04_second_genesis_refused : forall s b g, genesis_of (chain s) = Some g -> b_hash b = b_hash g ->
   snd (step s (ExecBlock b)) <> Accepted.
